@@ -475,6 +475,8 @@ func (s *csrSuite) genLog(v csrView) *ethtypes.Log {
 		data[r.Intn(12)] = byte(1 + r.Intn(255))
 	case 6:
 		data = data[:r.Intn(len(data)+1)]
+	case 7: // trailing bytes that do not fill a word
+		data = append(data, make([]byte, 1+r.Intn(31))...)
 	}
 	return &ethtypes.Log{Address: em, Topics: topics, Data: data}
 }
